@@ -1,0 +1,33 @@
+//go:build verif
+
+package kvstore
+
+import "sync/atomic"
+
+// Yield points inside BatchedWriter.Enqueue (only compiled in with build tag "verif").
+const (
+	// VerifEnqueueAfterRunningCheck is passed right after Enqueue found the writer running,
+	// before the object is marked as scheduled and counted.
+	VerifEnqueueAfterRunningCheck = 0
+	// VerifEnqueueBeforeQueueSend is passed after the object was counted as scheduled, right before the queue send.
+	VerifEnqueueBeforeQueueSend = 1
+)
+
+var verifEnqueueHook atomic.Pointer[func(bw *BatchedWriter, object BatchWriteObject, site int)]
+
+// SetVerifEnqueueHook installs the function that is called at the yield points of BatchedWriter.Enqueue
+// (nil removes it). It exists for schedule-controlling tests only.
+func SetVerifEnqueueHook(hook func(bw *BatchedWriter, object BatchWriteObject, site int)) {
+	if hook == nil {
+		verifEnqueueHook.Store(nil)
+
+		return
+	}
+	verifEnqueueHook.Store(&hook)
+}
+
+func verifEnqueueYield(bw *BatchedWriter, object BatchWriteObject, site int) {
+	if hook := verifEnqueueHook.Load(); hook != nil {
+		(*hook)(bw, object, site)
+	}
+}
